@@ -26,6 +26,7 @@ RULE = ('8 helpers (route/resource/static/current_route x url/path) on generated
         'route_url(<current route>, **{**matchdict, **keywords}) on the implementation; every URL with extra elements is compared '
         'with the same call without them (no segment nobody supplied) and the route part of the path, decoded as a whole, with the '
         'pattern filled with the supplied values; registrations made after URLs were generated on the half-built configuration; '
+        'texts made only of one Unicode class beyond ASCII (digits of other scripts, superscripts, spaces, case-mapping letters, marks); '
         'sadd stream: the registrations a sequence of add_static_view statements leaves behind vs the Coq model of StaticURLInfo.add; '
         'plus urllib.parse decoder, urljoin and quote streams. non-trivial = a URL was '
         'produced AND (some supplied element/query/anchor/script character needs quoting OR an override is present OR the '
@@ -175,7 +176,29 @@ NASTY = [' ', '%', '?', '#', '&', '=', '+', '/', ';', ':', '@', '"', '<', '>', '
 PLAIN = list('abcxyzAZ019')
 
 
+# texts made ONLY of characters of one Unicode class that str predicates (isdigit / isdecimal / isnumeric / isspace / isalpha /
+# isupper / isalnum / isidentifier ..) accept beyond ASCII: a fast path or shortcut guarded by such a predicate sees them as
+# "plain" although they need quoting (seed C17-19: `segment.isdigit()`); ASCII members of the class are mixed in
+CLASS_CHARS = {
+    'digit': ['\u0663', '\u0969', '\uff13', '\xb2', '\u2075', '\u06f7', '7', '0'],
+    'numeric': ['\xbd', '\u2167', '\u4e09', '\u0663', '3'],
+    'space': ['\u2003', '\x85', '\u3000', '\xa0', '\u2028', ' ', '\x1c'],
+    'alpha': ['\xdf', '\u0130', '\u01c6', '\u03a3', '\u05d0', '\u4e2d', 'a', 'Z'],
+    'upper': ['\xc9', '\u0130', '\u03a3', '\u01c4', 'A'],
+    'ident': ['\xb5', '\u212a', '\ufb01', '_', 'x', '\u0663'],
+    'mark': ['e\u0301', '\u0301', '\u200d', '\ufe0f', '\u00ad'],
+}
+CLASS_TEXT = 0.05
+
+
+def gen_class_text(rng, cls=None):
+    chars = CLASS_CHARS[cls or rng.choice(sorted(CLASS_CHARS))]
+    return ''.join(rng.choice(chars) for _ in range(rng.choice([1, 1, 2, 3])))
+
+
 def gen_text(rng, maxlen=6, nasty=0.5):
+    if CLASS_TEXT and rng.random() < CLASS_TEXT:
+        return gen_class_text(rng)
     n = rng.choice([0, 1, 1, 2, 2, 3, 4, maxlen])
     return ''.join(rng.choice(NASTY) if rng.random() < nasty else rng.choice(PLAIN) for _ in range(n))
 
@@ -773,6 +796,23 @@ def targeted(broken, disagreements, rng):
         c2 = json.loads(json.dumps(c))
         c2['ov']['query'] = ['s', 'q' + ch]
         out.append(c2)
+    # one-class texts (all digits of some script, all spaces, ..) in every position that is quoted
+    for cls in sorted(CLASS_CHARS):
+        for ch in CLASS_CHARS[cls] + [gen_class_text(rng, cls) for _ in range(3)]:
+            c = gen_route_case(rng)
+            c['routes'], c['route_name'] = [['r', '/p/{x}/*rest']], 'r'
+            c['kw'] = [['x', ['v', ['s', ch]]], ['rest', ['q', [['s', ch], ['s', 'a']], 'tuple']]]
+            c['elements'] = [['s', ch]]
+            c['ov'].update(query=['l', [[['s', ch], ['v', ['s', ch]]]]], anchor=['s', ch], app_url=None)
+            out.append(c)
+            c2 = gen_resource_case(rng)
+            c2.update(names=[['s', ch], ['s', 'n']], elements=[['s', ch]], vroot=None, rn=None, routes=[])
+            c2['ov']['app_url'] = None
+            out.append(c2)
+            c3 = json.loads(json.dumps(c))
+            c3['env']['script_name'] = '/' + ch
+            c3['ov']['query'] = ['s', ch]
+            out.append(c3)
     for s in OV_SCHEMES:
         for h in [None] + OV_HOSTS:
             for p in [None] + OV_PORTS:
